@@ -48,6 +48,10 @@ def check(rep):
     else:
         info = PR.trace_generated_text(ctx, ctx.mod("experiment_evaluator.py"),
                                        ctx.mod("experiment_evaluator.py").get_method("ExperimentEvaluator", "recompile"))
+    nested_ = [ir["helper_nested"] for o, ir, err in PR.irs(ctx) if ir is not None and not o.expose]
+    if life["undecided"] and PR._entry_point_followed(ctx, "recompile") and nested_:
+        # what recompile hands to exec was obtained by interpreting recompile itself for every shape: the layout is read off that text
+        info = {"expose": "False" if all(nested_) else "True", "problems": []}
     if info.get("expose") is None:
         import ast as _ast
         init = ctx.mod("codegen/python/python_generator.py").get_method("PythonCodeGen", "__init__")
